@@ -10,6 +10,7 @@ structure DS where
   inflight : List Bool := []      -- hooks of the calls in flight, oldest first (true = the promise hook)
   weak : Bool := false            -- a weak reference to t was saved
   stale : Bool := false           -- a handle on t was released (the script kept the dead handle)
+  staleP : Bool := false          -- … a handle of the promised client
   errHandles : Option Nat := none -- after a self-fulfilment: live handles of the promised client (they refer to the error client)
 
 def drain (s : St) : St :=
@@ -47,7 +48,7 @@ def apiOp (d : DS) (op : String) : DS × String :=
   -- handles of a promise that was fulfilled with itself refer to an error client: a capability outside the model
   match d.errHandles, op with
   | some n, "addP" => if n = 0 then (d, "skip") else ({ d with errHandles := some (n + 1) }, "-")
-  | some n, "relP" => if n = 0 then (d, "skip") else ({ d with errHandles := some (n - 1) }, "-")
+  | some n, "relP" => if n = 0 then (d, "skip") else ({ d with errHandles := some (n - 1), staleP := true }, "-")
   | some n, "callP" => if n = 0 then (d, "skip") else (d, "err")
   | _, _ =>
   match op with
@@ -67,6 +68,10 @@ def apiOp (d : DS) (op : String) : DS × String :=
     if !d.weak then (d, "skip")
     else if d.s.t.refs = 0 then (d, "gone") else ({ d with s := app d.s [.weakAdd false] }, "-")
   | "staleT" => if !d.stale then (d, "skip") else (d, "released")   -- a released handle is dead: invalid, calls refused
+  | "staleP" => if !d.staleP then (d, "skip") else (d, "dead")     -- … whatever the promise resolved to
+  | "relP" =>
+    let (s', r) := apiOp0 d.s op
+    ({ d with s := s', staleP := d.staleP || decide (r ≠ "skip") }, r)
   | "relT" =>
     let (s', r) := apiOp0 d.s op
     ({ d with s := s', stale := d.stale || decide (r ≠ "skip") }, r)
